@@ -1,5 +1,5 @@
 """Property -> harnesses registry."""
-import h_doc
+import h_doc, h_c13
 
 def doc(prog, tier):
     return h_doc.DocHarness(prog, tier)
@@ -15,7 +15,15 @@ COMMON = [
     'with the shapes the reader can emit (witnessed natively), outputs are the projected GraphBlocks / arena / Tree',
 ]
 
+KERNEL_SPEC = {'make': lambda prog, tier: h_c13.KernelHarness(prog, tier), 'time_limit': {'quick': 300, 'thorough': 1800}}
+LINESTARTS_SPEC = {'make': lambda prog, tier: h_c13.LineStartsHarness(prog, tier), 'time_limit': {'quick': 120, 'thorough': 600}}
+
 PROPS = {
+    'C13': {'specs': [KERNEL_SPEC, LINESTARTS_SPEC], 'notes': COMMON + [
+        'claimed for the conversion kernels: to_line_range / to_inline_range over every sorted line table (symbolic 64-bit entries) and byte range; '
+        'line_starts over strings given by their line structure (symbolic line lengths, LF / CRLF / missing final newline), std str::lines / '
+        'split_inclusive / split / len modelled on that structure',
+        'which byte ranges pulldown-cmark reports for a block (e.g. a last line without newline) and UTF-16 vs byte columns are outside the claim']},
     'C01': {'specs': [DOC_SPEC], 'notes': COMMON + ['claimed at block level: every block/token of the input appears once, in order, in the same container, same kind']},
     'C03': {'specs': [DOC_SPEC], 'notes': COMMON + ['claimed for blocks -> graph -> tree -> projection: every compiler-emitted panic edge / unwrap / expect / explicit panic reachable within the bounds is a violation']},
     'C07': {'specs': [DOC_SPEC], 'notes': COMMON + ['heading levels are symbolic u8 in 1..6; laws: order kept, emitted outline well nested, well-nested input keeps its levels, blocks stay under the nearest preceding heading']},
